@@ -391,6 +391,15 @@ of_status_t	of_ldpc_staircase_build_repair_symbol (of_ldpc_staircase_cb_t*	ofcb,
 		OF_PRINT_ERROR(("of_ldpc_staircase_build_repair_symbol: Error, bad esi of encoding symbol (%d)\n", esi_of_symbol_to_build))
 		goto error;
 	}
+	if (encoding_symbols_tab[esi_of_symbol_to_build] == NULL)
+	{
+		/* as documented, allocate the repair symbol buffer when the application did not */
+		if ((encoding_symbols_tab[esi_of_symbol_to_build] = of_calloc (1, ofcb->encoding_symbol_length)) == NULL)
+		{
+			OF_PRINT_ERROR(("%s: Error, no memory\n", __FUNCTION__))
+			goto error;
+		}
+	}
 	parity_symbol = encoding_symbols_tab[esi_of_symbol_to_build];
 	memset (parity_symbol, 0, ofcb->encoding_symbol_length);
 	col_to_build = of_get_symbol_col ((of_cb_t*)ofcb, esi_of_symbol_to_build);
